@@ -187,20 +187,24 @@ fn finish(mut v: Verdicts, which: u8) -> CaseInfo {
     v.info
 }
 
+fn full_cfg() -> FdCfg {
+    FdCfg { non_int_eq: true, ..FdCfg::full() }
+}
+
 fn run16(bytes: &[u8], ctx: &Ctx) -> CaseInfo {
     let mut s = Source::new(bytes);
-    let c = gen_case(&mut s, &FdCfg::full());
+    let c = gen_case(&mut s, &full_cfg());
     finish(evaluate(&c, ctx), 16)
 }
 
 fn run17(bytes: &[u8], ctx: &Ctx) -> CaseInfo {
     let mut s = Source::new(bytes);
-    let c = gen_case(&mut s, &FdCfg::full());
+    let c = gen_case(&mut s, &full_cfg());
     finish(evaluate(&c, ctx), 17)
 }
 
 fn simple_cfg() -> FdCfg {
-    FdCfg { max_vars: 3, max_constraints: 3, lo: 0, hi: 5, aliasing: false, times: false, eq: false, shapes: false, hidden: false }
+    FdCfg { max_vars: 3, max_constraints: 3, lo: 0, hi: 5, aliasing: false, times: false, eq: false, shapes: false, hidden: false, non_int_eq: false }
 }
 
 fn run16_simple(bytes: &[u8], ctx: &Ctx) -> CaseInfo {
